@@ -27,13 +27,31 @@ def gen_case(rng):
     W = rng.randint(1, 12)
     N = rng.randint(1, 6)
     ns = rng.choice([1, 1, 2, 3, 4, 6])
-    kind = rng.choice(["bits", "bits", "float32", "int", "fortran", "special", "strided", "reversed"])
+    kind = rng.choice(["bits", "bits", "float32", "int", "fortran", "special", "strided", "reversed", "cancel"])
     series = []
     same_T = W + rng.randint(1, 12) if (ns >= 2 and rng.random() < 0.3) else None    # equal-shaped series, several windows each
     for _ in range(ns):
         T = same_T if same_T is not None else W + rng.choice([0, 0, 1, 2, rng.randint(0, 40)])
         if kind in ("bits", "fortran", "strided", "reversed"):
             cells = [[rng.getrandbits(64) for _ in range(N)] for _ in range(T)]
+        elif kind == "cancel":
+            # rows whose readings cancel exactly (+a, -a; quantised signals), all-zero rows and rows of -0.0 among ordinary ones
+            import struct as _st
+            fb = lambda v: _st.unpack("<Q", _st.pack("<d", float(v)))[0]
+            cells = []
+            for _r in range(T):
+                style = rng.choice(["pair", "zero", "negzero", "plain", "triple"])
+                if style == "zero" or N == 0:
+                    row = [0.0] * N
+                elif style == "negzero":
+                    row = [-0.0] * N
+                elif style == "plain" or N == 1:
+                    row = [rng.randint(-8, 8) / 4 for _ in range(N)]
+                else:
+                    row = [rng.randint(-8, 8) / 4 for _ in range(N - 1)]
+                    row.append(-sum(row))
+                    rng.shuffle(row)
+                cells.append([fb(v) for v in row])
         elif kind == "special":
             sp = [0x7ff8000000000001, 0xfff8000000000abc, 0x7ff0000000000000, 0xfff0000000000000,
                   0x8000000000000000, 0x0000000000000001, 0x7ff4000000000000]
@@ -45,7 +63,7 @@ def gen_case(rng):
 
 
 def to_array(cells, kind):
-    if kind in ("bits", "special", "fortran", "strided", "reversed"):
+    if kind in ("bits", "special", "fortran", "strided", "reversed", "cancel"):
         a = np.array(cells, dtype=np.uint64).view(np.float64).reshape(len(cells), -1)
         if kind == "fortran":
             a = np.asfortranarray(a)
